@@ -26,10 +26,10 @@ cp "$dir/demo.rs" tests/demo.rs
 cargo test --offline --test demo > "$dir/demo_patched.log" 2>&1; demo_patched=$?
 rm -f tests/demo.rs
 git checkout -q -- . 
-cd /verif
+cd /verif; unset CARGO_TARGET_DIR
 declare -A verdicts
 for c in "${checks[@]}"; do
-  out=$(timeout 1500 /verif/tools/with_patch.sh "$dir/patch.diff" ./check "$c" quick 2>&1); code=$?
+  out=$(env -u CARGO_TARGET_DIR timeout 1500 /verif/tools/with_patch.sh "$dir/patch.diff" ./check "$c" quick 2>&1); code=$?
   echo "$out" > "$dir/check_$c.log"
   verdicts[$c]=$code
 done
